@@ -4,6 +4,7 @@ import OmplModel.Proofs.InterleavePrrt
 import OmplModel.Proofs.InterleaveSchedules
 import OmplModel.Proofs.InterleaveRound2
 import OmplModel.Proofs.InterleavePrrtRun
+import OmplModel.Proofs.InterleaveConsole
 /-!
 # C19 — concurrent use through the documented thread-safe surface is race-free
 
@@ -657,6 +658,115 @@ example : updatedCands demoEnv (trace (workers [[9], [1]]) [0, 0, 0, 0, 1, 1, 1,
     (prrtRun demoEnv [[9], [1]] [0, 0, 0, 0, 1, 1, 1, 1]).sol = none ∧
     (prrtRun demoEnv [[9], [1]] [0, 0, 0, 0, 1, 1, 1, 1]).approx = some 2 ∧
     (prrtRun demoEnv [[9], [1]] [0, 0, 0, 0, 1, 1, 1, 1]).approxdif = some 2 := by decide
+
+/-- **An added state reaches the solution update** — proved part.  FULL STATEMENT (not proved):
+`∀ xss is, Complete (workers xss) is →
+   (nodes (prrtRun e xss is).tree).tail.Perm (updatedCands e (trace (workers xss) is) (PStore.init e))`
+("the states brought to the update are exactly the states added to the tree", which would turn `prrt_approx_is_closest`
+into "the approximate solution is the closest state of the TREE").
+Proved here: the local step of that argument, for every store and whatever the other workers do in between — if worker
+`t`'s motion check passed, then `add t`, any steps of OTHER workers, `upd t` put its candidate among the updated states
+(and the candidate is in the tree by `PInv.added_in`).
+Missing: the decomposition of the trace of a complete scheduler of `workers xss` into such blocks per worker (every
+`add t` is followed by `upd t` with no step of worker `t` in between, and `nearest t` resets `added`), which needs an
+invariant over (`remain`, store) pairs — the generic `exec_preserves` only sees the store.  Observed instead on every
+recorded run (`judge_trace`: each `A` event of a worker is followed by its `G` event). -/
+theorem prrt_added_state_reaches_update_partial {S D : Type} (e : PEnv S D) (t : Nat) (l : List (PStep S))
+    (hl : ∀ a ∈ l, a.thread ≠ t) (s : PStore S D) (hok : (s.loc t).ok = true) :
+    (s.loc t).cand ∈ updatedCands e ([PStep.add t] ++ l ++ [PStep.upd t]) s ∧
+      (s.loc t).cand ∈ nodes (runSteps (PStep.apply e) ([PStep.add t] ++ l ++ [PStep.upd t]) s).tree := by
+  refine ⟨added_then_updated e t l hl s hok, ?_⟩
+  have h1 : (s.loc t).cand ∈ nodes (PStep.apply e (.add t) s).tree := by
+    simp [PStep.apply, hok, nodes]
+  have hmono : ∀ (l : List (PStep S)) (s : PStore S D) (c : S), c ∈ nodes s.tree →
+      c ∈ nodes (runSteps (PStep.apply e) l s).tree := by
+    intro l
+    induction l with
+    | nil => intro s c hc; exact hc
+    | cons a l ih =>
+      intro s c hc
+      rw [runSteps_cons]
+      refine ih _ c ?_
+      cases a with
+      | nearest u x => exact hc
+      | check u => exact hc
+      | add u =>
+        simp only [PStep.apply]
+        split
+        · exact mem_nodes_append hc
+        · exact hc
+      | upd u =>
+        simp only [PStep.apply]
+        split
+        · split
+          · exact hc
+          · split
+            · exact hc
+            · split <;> exact hc
+        · exact hc
+  have := hmono (l ++ [PStep.upd t]) _ _ h1
+  simpa [runSteps_append, runSteps, List.append_assoc] using this
+
+example : ((prrtRun demoEnv [[9], [1]] [0, 0]).loc 0).ok = true ∧
+    updatedCands demoEnv ([PStep.add 0] ++ [PStep.nearest 1 1, .check 1] ++ [PStep.upd 0]) (prrtRun demoEnv [[9], [1]] [0, 0])
+      = [2] := by decide
+
+/-! ## logging: the console lock serialises the handlers (round 10b; the directed harness op is `logpark`) -/
+
+/-- **Handlers are entered one at a time and a replaced handler is idle when the replacing call returns** — for every
+scheduler (complete or not) of any thread family made of the console's entry points as they are (`log`,
+`useOutputHandler`, `noOutputHandler`, `restorePreviousOutputHandler`, each one guarded step): between steps nobody is
+inside a handler, no entry ever overlapped another, and no replacement returned over a running message. -/
+theorem console_handlers_serialised (ts : List (List LStep)) (hts : ∀ t ∈ ts, ∀ a ∈ t, a.guarded) (h0 : Option Nat)
+    (is : List Nat) :
+    let s := exec LStep.apply ts (LStore.init h0) is
+    s.inside = [] ∧ s.overlaps = 0 ∧ s.stale = 0 := by
+  have hsteps : ∀ a ∈ trace ts is, a.guarded := by
+    intro a ha
+    obtain ⟨t, ht, hat⟩ := mem_trace _ _ a ha
+    exact hts t ht a hat
+  exact lquiet_run _ hsteps _ ⟨rfl, rfl, rfl⟩
+
+example : (exec LStep.apply [[.logG 0, .logG 0], [.useH 2, .logG 1], [.noH, .restore]] (LStore.init (some 1))
+    [0, 1, 2, 1, 2, 0]).delivered = [(1, 0), (2, 0)] := by decide   -- thread 1's message falls into `noOutputHandler`
+
+/-- **No message is lost or duplicated while a handler is installed**: threads that log and replace the handler (never
+remove it), every complete scheduler: the handlers together received exactly as many messages as were sent. -/
+theorem console_delivers_every_message (ts : List (List LStep))
+    (hts : ∀ t ∈ ts, ∀ a ∈ t, (∃ u, a = LStep.logG u) ∨ (∃ h, a = LStep.useH h)) (h0 : Nat) (is : List Nat)
+    (hc : Complete ts is) :
+    (exec LStep.apply ts (LStore.init (some h0)) is).delivered.length = logCount ts.flatten := by
+  have hsteps : ∀ a ∈ trace ts is, (∃ u, a = LStep.logG u) ∨ (∃ h, a = LStep.useH h) := by
+    intro a ha
+    obtain ⟨t, ht, hat⟩ := mem_trace _ _ a ha
+    exact hts t ht a hat
+  have h := (delivered_run _ hsteps (LStore.init (some h0)) (by simp [LInstalled, LStore.init])).1
+  have hp := trace_perm_of_complete hc
+  simp only [exec]
+  rw [h]
+  simp only [LStore.init, List.length_nil, Nat.zero_add, logCount]
+  exact (hp.filter _).length_eq
+
+example : Complete [[LStep.logG 0, .logG 0], [.useH 2, .logG 1]] [0, 1, 1, 0] := by decide
+
+/-- **Calling the handler after releasing the lock is not serialised** (the shape "copy the pointer under the lock, call
+outside"): two threads log once each; schedule snap 0 · enter 0 · snap 1 · enter 1 — the second thread enters the handler
+while the first is inside it. -/
+theorem console_split_log_overlaps :
+    ∃ is, Complete [splitLog 0, splitLog 1] is ∧
+      (exec LStep.apply [splitLog 0, splitLog 1] (LStore.init (some 7)) is).overlaps = 1 :=
+  ⟨[0, 0, 1, 1, 0, 1], by decide, by decide⟩
+
+/-- … **and `useOutputHandler` returns over a running message**: thread 0 is inside handler 7 when thread 1 replaces it;
+the call returns (one step) while the message is still being written by the replaced handler, which its owner may now
+destroy.  Under the guarded console (`console_handlers_serialised`) `stale` stays 0 for the same two calls. -/
+theorem console_split_log_stale_handler :
+    ∃ is, Complete [splitLog 0, [.useH 8]] is ∧
+      (exec LStep.apply [splitLog 0, [.useH 8]] (LStore.init (some 7)) is).stale = 1 ∧
+      ∀ js, (exec LStep.apply [[.logG 0], [.useH 8]] (LStore.init (some 7)) js).stale = 0 := by
+  refine ⟨[0, 0, 1, 0], by decide, by decide, fun js => ?_⟩
+  exact (console_handlers_serialised [[.logG 0], [.useH 8]]
+    (by intro t ht a ha; simp at ht; rcases ht with rfl | rfl <;> simp at ha <;> subst ha <;> simp [LStep.guarded]) (some 7) js).2.2
 
 /-- **The environment the replay driver runs meets the hypothesis of the pRRT theorems**: the brute-force nearest
 neighbour (`nearestOf`, what `nn_->nearest` must answer; the real answer is accepted as a hint only when it is a tree
